@@ -69,6 +69,15 @@ func DrawProfile(property, tier string, r *PRNG) *Profile {
 	p.StyleRate = Pick(r, []float64{0, 0.1, 0.3})
 	p.DtMix = []float64{1, 1, 2, 8, 2, 1.5, 1, 0.4}
 	p.GenesisK = Pick(r, []string{"default", "default", "default", "seeded"})
+	p.PTie = 0.12
+	// accounts that are not key accounts: 32-byte module / group-policy addresses, other valid lengths
+	for i, n := 0, Pick(r, []int{0, 0, 1, 2}); i < n; i++ {
+		l := 32
+		if r.Chance(0.3) {
+			l = Pick(r, []int{1, 19, 21, 33, 64, 255})
+		}
+		p.AddrLens = append(p.AddrLens, l)
+	}
 	if thorough && r.Chance(0.3) {
 		p.WideW = 1.5
 	}
@@ -172,6 +181,7 @@ func DrawProfile(property, tier string, r *PRNG) *Profile {
 		p.PNearMiss = Pick(r, []float64{0.1, 0.2})
 		p.AltSched = true
 		p.MaxTxs = r.Range(30, 120)
+		p.PTie = Pick(r, []float64{0.12, 0.3, 0.6}) // ties in orderings are where iteration order shows
 	case "C11":
 		core("BasketCreate", "Put", "Take", "UpdDateCriteria", "CreateBatch")
 		scale(p.Weights, []string{"Put", "Take", "BasketCreate", "UpdDateCriteria"}, 3)
@@ -181,6 +191,7 @@ func DrawProfile(property, tier string, r *PRNG) *Profile {
 		scale(p.Weights, dataKinds, 0.1)
 		scale(p.Weights, marketKinds, 0.3)
 		p.DtMix = []float64{1, 1, 2, 6, 2, 2, 2, 1.5}
+		p.PTie = Pick(r, []float64{0.12, 0.3})
 	case "C13":
 		core(bridgeKinds...)
 		scale(p.Weights, bridgeKinds, 3)
